@@ -82,6 +82,14 @@ func (s *LocalSubscriber) Ready() (n int) {
 	s.liveMutex.Lock()
 	s.outMutex.Lock()
 
+	// The subscriber may have been disconnected while it was catching up: its channel is closed, nothing can be sent anymore
+	if atomic.LoadInt32(&s.disconnected) > 0 {
+		s.outMutex.Unlock()
+		s.liveMutex.Unlock()
+
+		return 0
+	}
+
 	for _, u := range s.liveQueue {
 		select {
 		case s.out <- u:
@@ -130,8 +138,10 @@ func (s *LocalSubscriber) Disconnect() {
 }
 
 // handleFullChan disconnects the subscriber when the out channel is full.
+// The channel is closed: the consumer ends the connection after having read what is already buffered.
 func (s *LocalSubscriber) handleFullChan() {
 	atomic.StoreInt32(&s.disconnected, 1)
+	close(s.out)
 	s.outMutex.Unlock()
 
 	if c := s.logger.Check(zap.ErrorLevel, "subscriber unable to receive updates fast enough"); c != nil {
